@@ -301,6 +301,10 @@ class MustCheck:
     def grid_index(self, body, pos, bins_body):
         """arity check dominates; the mapped closure calls the verified Bins::index on each element"""
         key = "%s/%s" % (short(body.key), body.local_name(pos))
+        from .facts import inline_calls
+        # the arity assertion may sit in a private helper (`self.assert_same_ndim(..)`): judged in place
+        body = inline_calls(self.prog, body, lambda cb: cb.key not in self.prog.exported and len(cb.blocks) <= 40 and not cb.raw.get("unsafe_fn")
+                            and cb.key != bins_body.key)
         edges = []
         for bb in body.live_blocks():
             t = body.term(bb)
